@@ -24,11 +24,11 @@ def null_tab():
 
 # --------------------------------------------------------------------------- compact documents from MC_Diff
 def expand(cdoc):
-    """[[k, t, v, par, keytexts], ...] (pre-order) -> node table."""
+    """[[k, t, v, par, [[keytype, keytext], ...]], ...] (pre-order) -> node table."""
     doc = []
     for k, t, v, par, keys in cdoc:
         n = absdoc.node(k, t, v, par)
-        n["keys"] = [{"t": "str", "v": x} for x in keys]
+        n["keys"] = [{"t": kt, "v": kv} for kt, kv in keys]
         doc.append(n)
     for i, n in enumerate(doc, 1):
         if n["par"]:
@@ -117,12 +117,40 @@ def child_at(d, i, st):
 
 
 def resolve(d, p):
+    """One position the path designates (the first, where key texts collide); 0 when there is none."""
     i = 1
     for st in p:
         i = child_at(d, i, st)
         if not i:
             return 0
     return i
+
+
+def children_at(d, i, st):
+    """A key step carries the TEXT of a hash key / set member (the code writes str(key)); the keys 0 and "0"
+    of one hash give the same step, so a step designates a set of positions."""
+    n = d[i - 1]
+    if n["k"] == "map" and isinstance(st, str):
+        return [c for key, c in zip(n["keys"], n["kids"]) if key["v"] == st]
+    if n["k"] == "set" and isinstance(st, str):
+        return [c for c in n["kids"] if d[c - 1]["v"] == st]
+    c = child_at(d, i, st)
+    return [c] if c else []
+
+
+def resolve_all(d, p):
+    cur = [1]
+    for st in p:
+        cur = [c for i in cur for c in children_at(d, i, st)]
+        if not cur:
+            break
+    return cur
+
+
+def kid_by_key(d, i, key):
+    """The value a hash holds under a key equal (as Python compares) to `key`; 0 when there is none."""
+    n = d[i - 1]
+    return next((c for k, c in zip(n["keys"], n["kids"]) if scalar_eq(k, key)), 0)
 
 
 def size_at(d, i):
@@ -270,8 +298,7 @@ RIGHT = ("SAME", "CHANGE", "ADD")
 
 
 def holds(d, p, val):
-    i = resolve(d, p)
-    return bool(i) and plain_eq(sub_tab(d, i), val)
+    return any(plain_eq(sub_tab(d, i), val) for i in resolve_all(d, p))
 
 
 def truthful(e, l, r):
@@ -380,7 +407,7 @@ def first_diff(l, i, r, j):
                 return [x] + first_diff(l, ca, r, cb)
     if a["k"] == "map":
         for ka, ca in zip(a["keys"], a["kids"]):
-            cb = child_at(r, j, ka["v"])
+            cb = kid_by_key(r, j, ka)
             if cb and not eq(ORDERED, l, ca, r, cb):
                 return [ka["v"]] + first_diff(l, ca, r, cb)
     return []
@@ -440,7 +467,7 @@ def _all_tags(l, i, r, j, cfg):
                     tags |= _all_tags(l, ca, r, cb, cfg)
     elif a["k"] == b["k"] == "map":
         for ka, ca in zip(a["keys"], a["kids"]):
-            cb = child_at(r, j, ka["v"])
+            cb = kid_by_key(r, j, ka)
             if cb:
                 tags |= _all_tags(l, ca, r, cb, cfg)
     return tags
